@@ -903,6 +903,10 @@ def r_popleft(it, sr, a, k):
     e = ops.mk(sr.kind, t[0])
     if it.write_log is not None:
         it.write_log.append((sr.col, "popleft"))
+    if it.ctx.__dict__.get("_q_atoms"):
+        from .contract import q_all_popleft
+
+        q_all_popleft(it, t)
     sr.set_term(z3.SubSeq(t, 1, ln - 1))
     return e
 
